@@ -184,23 +184,44 @@ def run_with_timeout(mod, case, acc):
         signal.setitimer(signal.ITIMER_REAL, 0)
 
 
-def _work(shard):
+def _work(task):
+    """Run the shards of one task in this (fresh) process."""
     acc = Acc()
     t0 = time.time()
+    index = -1
     try:
-        for case in _MOD.cases(shard):
-            run_with_timeout(_MOD, case, acc)
-            acc.sample(case)
-            if acc.counters.get('viol:timeout', 0) >= 1:
-                # do not spend the budget on a tree that hangs
-                acc.count('capped')
+        for shard in task:
+            stop = False
+            for case in _MOD.cases(shard):
+                index += 1
+                n0 = len(acc.viol)
+                run_with_timeout(_MOD, case, acc)
+                for v in acc.viol[n0:]:
+                    # where in the exploration it happened: lets a replay
+                    # rebuild the history of the worker process if the case
+                    # alone does not reproduce it
+                    v['task'] = task
+                    v['index'] = index
+                acc.sample(case)
+                if acc.counters.get('viol:timeout', 0) >= 1:
+                    # do not spend the budget on a tree that hangs
+                    acc.count('capped')
+                    stop = True
+                    break
+            if stop:
                 break
     except Exception as exc:  # enumeration itself failed: harness bug
         return dict(harness_error=''.join(traceback.format_exception(
-            type(exc), exc, exc.__traceback__)), shard=repr(shard)[:300])
+            type(exc), exc, exc.__traceback__)), shard=repr(task)[:300])
     r = acc.result()
     r['wall'] = time.time() - t0
     return r
+
+
+def _witness(pid, case):
+    setup_import_path()
+    mod = importlib.import_module('vlib.props.' + pid.lower())
+    return run_single(mod, case).viol
 
 
 def load_findings(pid):
@@ -240,7 +261,8 @@ def confirm_in_fresh_process(pid, viol):
     tmp = os.path.join(VERIF, 'replays', pid, '.confirm.json')
     os.makedirs(os.path.dirname(tmp), exist_ok=True)
     with open(tmp, 'w') as f:
-        json.dump(dict(property=pid, kind=viol['kind'], case=viol['case']), f,
+        json.dump(dict(property=pid, kind=viol['kind'], case=viol['case'],
+                       task=viol.get('task'), index=viol.get('index')), f,
                   default=str)
     env = dict(os.environ)
     p = subprocess.run(
@@ -261,6 +283,27 @@ def do_replay(mod, pid, path, machine):
     case = d['case']
     acc = run_single(mod, case)
     kinds = sorted({v['kind'] for v in acc.viol})
+    if d.get('kind') not in kinds and d.get('task') is not None:
+        # not reproduced by the case alone: replay the cases the worker ran
+        # before it, in one process (state kept between calls)
+        acc = Acc()
+        index = -1
+        done = False
+        for shard in d['task']:
+            for c in mod.cases(shard):
+                index += 1
+                run_with_timeout(mod, c, acc)
+                if index >= d.get('index', 0):
+                    done = True
+                    break
+            if done:
+                break
+        hist = sorted({v['kind'] for v in acc.viol})
+        if d.get('kind') in hist:
+            kinds = hist
+            if not machine:
+                print('(reproduced only with the history of the preceding '
+                      f'{d.get("index", 0)} cases of the worker task)')
     if machine:
         print('REPLAY-KINDS ' + json.dumps(kinds))
         return 0
@@ -320,7 +363,10 @@ def main(argv=None):
         w = f.get('witness')
         if w is None:
             continue
-        acc = run_single(mod, w)
+        with mp.get_context('fork').Pool(1) as wp:
+            wviol = wp.apply(_witness, (pid, w))
+        acc = Acc()
+        acc.viol = wviol
         if any(matches(f, v) for v in acc.viol):
             known_lines.append(
                 f'KNOWN-FINDING: property={pid} {f["id"]}: {f["what"]}')
@@ -346,8 +392,14 @@ def main(argv=None):
     merged_sets = collections.defaultdict(set)
     ctx = mp.get_context('fork')
     jobs = max(1, min(args.jobs, len(shards)))
-    with ctx.Pool(jobs, initializer=_init_worker, initargs=(pid,)) as pool:
-        for r in pool.imap_unordered(_work, shards, chunksize=1):
+    # Shards are dealt round-robin to at most 8 tasks per worker; every task
+    # runs in a fresh process, so state that omega keeps between calls can
+    # only come from the cases of the same task, which a replay rebuilds.
+    ntasks = max(1, min(len(shards), 8 * jobs))
+    tasks = [shards[i::ntasks] for i in range(ntasks)]
+    with ctx.Pool(jobs, initializer=_init_worker, initargs=(pid,),
+                  maxtasksperchild=1) as pool:
+        for r in pool.imap_unordered(_work, tasks, chunksize=1):
             if 'harness_error' in r:
                 harness_errors.append(r)
                 continue
